@@ -95,6 +95,10 @@ where
 }
 
 fn main() -> Result<(), Box<dyn Error>> {
+    #[cfg(parol_verif)]
+    if verif_gate::parse_mode() {
+        return Ok(());
+    }
     env_logger::init();
     debug!("env logger started");
 
